@@ -154,22 +154,22 @@ def cases(ctx):
     quick = ctx.tier == "quick"
     i = 0
     for a in range(8):
-        for rep in range(1 if quick else 4):
+        for rep in range(2 if quick else 4):
             if ctx.mine(i):
                 yield "identity", {"a": a}
             i += 1
     for fs_ in range(8):
         for dr_ in range(32):
-            for rep in range(1 if quick else 6):
+            for rep in range(2 if quick else 6):
                 if ctx.mine(i):
                     yield "surv", {"fs": fs_, "dr": dr_}
                 i += 1
     for code in range(128):
         if ctx.mine(i):
-            yield "allcall", {"code": code, "reps": 4 if quick else 60}
+            yield "allcall", {"code": code, "reps": 16 if quick else 60}
         i += 1
     for df in range(32):
-        for rep in range(2 if quick else 16):
+        for rep in range(4 if quick else 16):
             if ctx.mine(i):
-                yield "guards", {"df": df, "reps": 12 if quick else 60}
+                yield "guards", {"df": df, "reps": 24 if quick else 60}
             i += 1
